@@ -118,8 +118,12 @@ func (defaultSharedInitializeCaller) Call(s *slip.Scope, args slip.List, depth i
 	}
 	for k, sd := range obj.Type.initFormMap() {
 		if _, has := nameMap[k]; !has {
-			// If in the initForms then initform will not be nil.
-			obj.setSlot(s, sd, sd.initform.Eval(s, depth+1), depth)
+			// The initform is there but it may be the form nil.
+			var value slip.Object
+			if sd.initform != nil {
+				value = sd.initform.Eval(s, depth+1)
+			}
+			obj.setSlot(s, sd, value, depth)
 		}
 	}
 	return obj
